@@ -32,7 +32,7 @@ pub fn signal_types() -> BoxedStrategy<Vec<RType>> {
     vec((g::kind(), any::<bool>(), any::<bool>(), g::scod()).prop_map(|(kind, vari, trai, scod)| RType { kind, vari, trai, scod }), 0..10).boxed()
 }
 
-fn strategy() -> impl Strategy<Value = Case> {
+pub fn strategy() -> impl Strategy<Value = Case> {
     (any::<bool>(), 0u8..8, prop::bool::weighted(0.3), any::<u8>(), signal_types(), any::<bool>()).prop_flat_map(|(storage, filter, format_logs, size_sel, types, big_endian)| {
         gb::hostile(storage).prop_map(move |buf| Case { buf, filter, format_logs, size_sel, types: types.clone(), big_endian })
     })
